@@ -301,22 +301,28 @@ theorem rejects_vector_without_vdims (xa : XA α) (k : Int) (h : xa.attrs.nvdim 
     (hd : ¬ "vdims" ∈ xa.dims) : fromXarray (.dataArray xa) = .error .value :=
   fromXA_vector_no_vdims xa k h hk hd
 
-/-- **Unevenly spaced coordinates are rejected** — as far as `np.allclose` sees them: if on
-some geometric axis one spacing deviates from the mean spacing by more than
-`1e-8 + 1e-5·|mean|`, the import fails (whatever attributes are present). -/
+/-- **Unevenly spaced coordinates are rejected, at every length scale**: if on some geometric
+axis one spacing deviates from the mean spacing by more than `1e-5·|mean|` (a purely relative
+threshold), the import fails, whatever attributes are present. -/
 theorem rejects_uneven (xa : XA α) (ax : Axis) (hax : ax ∈ geo xa) (j : Nat) (hj : j + 1 < ax.values.length)
-    (hdev : 1/100000000 + 1/100000 * absR (meanDiff ax.values)
+    (hdev : 1/100000 * absR (meanDiff ax.values)
               < absR ((ax.values.getD (j + 1) 0 - ax.values.getD j 0) - meanDiff ax.values)) :
     ∃ e, fromXarray (.dataArray xa) = .error e :=
   fromXA_uneven xa ax hax (evenB_false_of_dev _ j hj hdev)
 
-/-- **… and what it does not see.**  The threshold has an ABSOLUTE term: coordinates whose
-spacings are all at most `5e-9` (any mesh at the nanometre scale and below) pass the spacing
-test no matter how uneven they are.  The sentence "unevenly spaced coordinates are rejected"
-is therefore false of the code at small length scales (finding D82; witness below). -/
-theorem spacing_blind_below_atol (v : List Rat)
-    (h : ∀ j, j + 1 < v.length → |v.getD (j + 1) 0 - v.getD j 0| ≤ 5/1000000000) : evenB v = true :=
-  evenB_of_small v h
+/-- **The spacing test is scale-invariant**: multiplying all coordinates by any positive
+factor (metres → nanometres), or shifting them, does not change whether they count as evenly
+spaced … -/
+theorem spacing_test_scale_invariant (s t : Rat) (hs : 0 < s) (v : List Rat) :
+    evenB (v.map (s * ·)) = evenB v ∧ evenB (v.map (· + t)) = evenB v :=
+  ⟨evenB_scale s hs v, evenB_shift t v⟩
+
+/-- … hence the importer's spacing verdict on a DataArray is the same after a change of
+length unit of its coordinates (the former blindness below `1e-8`, finding D82, is gone:
+see the nanometre witness below, now rejected like its metre-scale copy). -/
+theorem spacing_check_scale_invariant (s : Rat) (hs : 0 < s) (xa : XA α) :
+    checkSpacing (scaleCoords s xa) = checkSpacing xa :=
+  checkSpacing_scale s hs xa
 
 /-! ## Non-vacuity and witnesses -/
 
@@ -354,13 +360,14 @@ example : ∃ g, fromXarray (.dataArray exHand) = .ok g ∧ g.mesh.region.pmin =
   · rw [h3]; decide
   · rw [h4]; decide
 
-/-- D82 witness: coordinates 0, 1 nm, 5 nm are accepted and give a 3-cell mesh of 2.5 nm cells
-from -1.25 nm to 6.25 nm; the same coordinates in metres are rejected -/
-example : (fromXarray (.dataArray exNm)).toOption.map (fun g => (g.mesh.region.pmin, g.mesh.region.pmax, g.mesh.n))
-    = some ([-5/4000000000], [25/4000000000], [3]) := by decide +kernel
+/-- former D82 witness (regression): coordinates 0, 1 nm, 5 nm are rejected exactly like the
+same coordinates in metres, of which they are a rescaling -/
+example : (fromXarray (.dataArray exNm)).toOption.map (fun g => g.mesh.n) = none := by decide +kernel
 example : (fromXarray (.dataArray exM)).toOption.map (fun g => g.mesh.n) = none := by decide +kernel
-/-- hypotheses of `rejects_uneven` on the metre-scale witness (spacings 1 and 4, mean 5/2) -/
-example : (1 : Rat)/100000000 + 1/100000 * absR (meanDiff [0, 1, 5]) < absR ((1 - 0) - meanDiff [0, 1, 5]) := by
+example : (scaleCoords (1/1000000000) exM).axes = exNm.axes := by decide +kernel
+/-- hypotheses of `rejects_uneven` on the nanometre witness (spacings 1 nm and 4 nm, mean 2.5 nm) -/
+example : (1 : Rat)/100000 * absR (meanDiff [0, 1/1000000000, 5/1000000000])
+    < absR ((1/1000000000 - 0) - meanDiff [0, 1/1000000000, 5/1000000000]) := by
   decide +kernel
 /-- an unlabelled vector field and a labelled scalar field are not `LabelsStd` -/
 example : ¬ LabelsStd { exF with vdims := none } := by unfold LabelsStd; decide
